@@ -230,3 +230,82 @@ func runGhostScenario(r *mon.Run, stream uint64) {
 	r.SetAdd("ghost_corruptions", bad.Corruption)
 	r.Distinct(fmt.Sprintf("ghost/%s/%d/k%d/l%d/u%d/%s", regime, stream, k, len(lower), len(upper), bad.Corruption))
 }
+
+// runOakBoundaryScenario: a network whose Oak hardfork is at height 500 (the
+// pre-Oak algorithm adjusts the target every 500 blocks against the timestamp
+// of an ancestor, the Oak algorithm does not use one). The chain, and forks
+// reorged across that height, are audited state by state against the pure
+// replay, so a wrong ancestor timestamp at the boundary shows as a differing
+// tip state.
+func runOakBoundaryScenario(r *mon.Run, stream uint64) {
+	rng := r.RNG(stream)
+	p := chainlab.RandomParams("v1only", rng)
+	p.HiDiff = true
+	p.OakHeight = 500
+	env := chainlab.NewEnv(p)
+	t := chainlab.NewTree(env, rng)
+	cs := chainCase{Kind: "oak-boundary", Stream: stream, Params: p}
+	prof := chainlab.Profile{MaxTxns: 1, NoContracts: true}
+	tip := t.Root
+	var fork *chainlab.Node
+	forkAt := uint64(494 + rng.IntN(6))
+	for tip.Height < 506 {
+		if tip.Height%25 == 0 || tip.Height > 480 {
+			tip = t.Extend(tip, prof)
+		} else {
+			tip = t.ExtendEmpty(tip, zeroT)
+		}
+		if !tip.ChainValid {
+			r.Inconclusive("generator built an invalid block near the Oak boundary: " + tip.Err)
+			return
+		}
+		if tip.Height == forkAt {
+			fork = tip
+		}
+	}
+	node, err := chainlab.NewTestNode(env, nil)
+	if err != nil {
+		r.Inconclusive(err.Error())
+		return
+	}
+	a := chainlab.NewAuditor(t, node)
+	step := func(batch []*chainlab.Node) bool {
+		_, fs := a.Submit(batch)
+		r.Count("calls_audited", 1)
+		if len(fs) > 0 {
+			reportFindings(r, cs, nil, a, fs)
+			return false
+		}
+		return true
+	}
+	path := tip.PathFromGenesis()
+	// in a few batches up to 490, then block by block across the boundary
+	for i := 0; i < 490; i += 70 {
+		if !step(path[i:min(i+70, 490)]) {
+			return
+		}
+	}
+	for i := 490; i < len(path); i++ {
+		if !step(path[i : i+1]) {
+			return
+		}
+	}
+	// a heavier fork that crosses the boundary with other timestamps
+	x := fork
+	var fk []*chainlab.Node
+	for x.Height < tip.Height+2 {
+		x = t.Extend(x, prof)
+		fk = append(fk, x)
+	}
+	if !step(fk) {
+		return
+	}
+	if fs := a.AuditChain(); len(fs) > 0 {
+		reportFindings(r, cs, nil, a, fs)
+		return
+	}
+	r.Eval()
+	r.Count("oak_boundary_histories", 1)
+	r.Count("reorgs_observed", a.Reorgs)
+	r.Distinct(fmt.Sprintf("oak/%d/%d", stream, forkAt))
+}
